@@ -23,7 +23,34 @@ def load_corpus(pid):
         mod = importlib.import_module("spverif.corpus.%s" % pid.lower())
     except ImportError:
         return []
-    return list(mod.EDITS)
+    return list(mod.EDITS) + seeded_corpus(pid)
+
+
+def seeded_corpus(pid):
+    """The independently written breaking changes under seeded/ (seeded/expectations.json says which
+    check must report which of them; "not-silent" = the change is beyond what the analysis decides,
+    the check must at least refuse to pass it)."""
+    import json
+
+    root = os.path.dirname(os.path.dirname(os.path.abspath(__file__)))
+    path = os.path.join(root, "seeded", "expectations.json")
+    if not os.path.exists(path):
+        return []
+    out = []
+    for seed, per in sorted(json.load(open(path)).items()):
+        if pid in per and os.path.exists(os.path.join(root, "seeded", seed, "patch.diff")):
+            e = {"id": "seeded:" + seed, "patch": "seeded/%s/patch.diff" % seed}
+            e.update(per[pid])
+            if not any(x.get("patch") == e["patch"] and x.get("expect") == e["expect"] for x in _explicit(pid)):
+                out.append(e)
+    return out
+
+
+def _explicit(pid):
+    try:
+        return importlib.import_module("spverif.corpus.%s" % pid.lower()).EDITS
+    except ImportError:
+        return []
 
 
 def apply_edit(repo, edit):
@@ -139,6 +166,12 @@ def run(pid, ctx, chk):
             else:
                 failures.append("breaking edit %s not reported as expected (exit %d, rules %s, errors %s)"
                                 % (e["id"], code, rules, errs))
+        elif exp == "not-silent":
+            good = code in (1, 2)
+            if good:
+                fired_ok += 1
+            else:
+                failures.append("breaking change %s passed the check (exit %d)" % (e["id"], code))
         elif exp == "no-alarm":
             good = code in (0, 2) and not rules
             if good:
